@@ -5,13 +5,18 @@ Abstract input (small JSON):
    'probes': [ {'times': [ints], 'amps': [numbers exact in float32], 'tmpl': [ints >= 0], 'clu': [ints >= 0],
                 'tdt': 'uint64', 'adt': 'float64', 'idt': 'uint32', 'cdt': 'uint32',   # dtypes of the four per-spike files
                 'vec2d': bool,                                                          # (n,1) instead of (n,) vectors
-                'extra_t': 0|1,                                                         # templates.npy rows beyond max(tmpl)+1
+                'extra_t': 0..,                                                         # templates.npy rows beyond max(tmpl)+1
+                                                                                        # (trailing templates without spikes)
+                'nt': int (optional),                                                   # explicit number of rows of templates.npy
+                                                                                        # (may be < max(tmpl)+1: guard violated)
                 'meta': {'cluster_KSLabel.tsv': {'field': 'KSLabel', 'rows': [[id, 'text'], ...]}, ...}}, ... ]}
 
 Only the spike side (C11) varies.  The channel/template side (C12's functions, which Merger.merge() runs
 unconditionally) is filled with fixed, deliberately harmless content: 2 channels per probe, int32 channel map and index
 tables (so that `uint32 += int32` is never reached), probes of positive width, >= 2 templates of 2 samples (so that
-`.squeeze()` drops no axis there), no whitening / similarity files."""
+`.squeeze()` drops no axis there), no whitening / similarity files.  Template i of probe k is non-zero on channel i % 2 only,
+with the values +-(i + 1 + 100 k): every template of every probe is a different waveform, so that the row of the merged
+templates.npy a merged spike points at identifies (probe, template) (clause 29 of C11/Corr.v)."""
 import hashlib
 import os
 
@@ -22,7 +27,18 @@ NSW = 2     # samples per template waveform
 
 
 def n_templates(p):
+    if p.get('nt') is not None:
+        return int(p['nt'])
     return max(2, (max(p['tmpl']) if p['tmpl'] else 0) + 1 + int(p.get('extra_t', 0)))
+
+
+def templates_of(p, k):
+    """Content of probe k's templates.npy as nested lists [template][sample][channel] of floats."""
+    out = []
+    for i in range(n_templates(p)):
+        v = float(i + 1 + 100 * k)
+        out.append([[v if c == i % NC else 0.0 for c in range(NC)], [-v if c == i % NC else 0.0 for c in range(NC)]])
+    return out
 
 
 def meta_text(m, delim='\t'):
@@ -32,7 +48,7 @@ def meta_text(m, delim='\t'):
     return '\n'.join(lines) + '\n'
 
 
-def write_probe(p, dirpath, rate):
+def write_probe(p, dirpath, rate, k=0):
     import numpy as np
     os.makedirs(dirpath)
 
@@ -46,9 +62,7 @@ def write_probe(p, dirpath, rate):
     nt = n_templates(p)
     np.save(os.path.join(dirpath, 'channel_map.npy'), np.arange(NC, dtype=np.int32))
     np.save(os.path.join(dirpath, 'channel_positions.npy'), np.array([[0., 0.], [16., 20.]]))
-    t = np.zeros((nt, NSW, NC), dtype=np.float32)
-    for i in range(nt):
-        t[i, :, i % NC] = [float(i + 1), -float(i + 1)]
+    t = np.array(templates_of(p, k), dtype=np.float32).reshape(nt, NSW, NC)
     np.save(os.path.join(dirpath, 'templates.npy'), t)
     ind = np.tile(np.arange(NC, dtype=np.int32), (nt, 1))
     np.save(os.path.join(dirpath, 'pc_feature_ind.npy'), ind)
@@ -66,7 +80,7 @@ def materialise(inp, root):
     dirs = []
     for k, p in enumerate(inp['probes']):
         d = os.path.join(root, 'probe%d' % k)
-        write_probe(p, d, inp.get('rate', 100.0))
+        write_probe(p, d, inp.get('rate', 100.0), k)
         dirs.append(d)
     return dirs, os.path.join(root, 'merged')
 
